@@ -29,7 +29,7 @@ import (
 var allInv = []string{"TypeOK", "HeadHint", "NotStuck", "ChainOK", "InsertOK", "DeleteOK", "MoveOK", "JournalReplayable",
 	"ValuesUnique", "AckedOnce", "NoOrphanOnFail", "AckedCommitStored", "SingleChain"}
 
-func tip(b string) lakeh.JOp         { return lakeh.JOp{K: "tip", Key: b} }
+func tip(b string) lakeh.JOp         { return lakeh.JOp{K: "load", Key: b} } // a commit realized as a load
 func ins(n string) lakeh.JOp         { return lakeh.JOp{K: "insert", Key: n} }
 func rmkey(n string) lakeh.JOp       { return lakeh.JOp{K: "rmkey", Key: n} }
 func ren(id int, n string) lakeh.JOp { return lakeh.JOp{K: "rename", ID: id, New: n} }
